@@ -5,4 +5,4 @@ Extraction "model.ml" vio_kit step pstep run prun convert valid_model_kb valid_p
   prob_tableb sprob_tableb prob_row_tolb
   isProbability1 isProbability2 isProbability3 isProbabilityM2 isProbabilityM3 isProbabilityS2 isProbabilityS3
   setDiscount_ok amdp_finish acc_row_okb rewards_okb transpose01 valid_model_k0b valid_pmodel_k0b isProbabilityS3f drop_small amdp_accumulate amdp_derive contrib_okb
-  gmodel_of cpush coop_step coop_ctor valid_coopb cps_validb.
+  amdp_spec_okb c_counts gmodel_of cpush coop_step coop_ctor valid_coopb cps_validb.
